@@ -787,6 +787,7 @@ fn escape_string(s: &str) -> String {
     for c in s.chars() {
         let ec = match c {
             '\\' => Some("\\\\"),
+            '"' => Some("\\\""),
             '\x08' => Some("\\b"),
             '\x0c' => Some("\\f"),
             '\n' => Some("\\n"),
